@@ -28,6 +28,12 @@ def cases(tier):
             for n in (-1, 0, 1, 2, 3):
                 out.append((l, n, 2))
         out += [(1, 1, -1), (0, 2, -1), (2, 1, -1), (1, 2, 3), (2, 2, 3)]
+    # large slices under the canonical schedule (bound -2): capacity / threshold mistakes (buffer sizes, batching) show
+    # up as a deadlock or a wrong result that the small lengths cannot reach; powers of two and their neighbours
+    big = [100, 1000, 1023, 1024, 1025, 4095, 4096, 4097, 8191, 8192, 8193, 8200, 8210] + ([16384, 16400, 20000, 65537] if tier != 'quick' else [])
+    for l in big:
+        for n in (1, 3):
+            out.append((l, n, -2))
     return out
 
 
